@@ -256,9 +256,10 @@ func classify(a *metax.Inst, cmd metax.Cmd, ra, rb metax.Result, diff []string, 
 	case mixed && diff != nil && (cmd.Kind == "ExpandGroups" || cmd.Kind == "CreateDataNode"):
 		// ExpandGroups skips a policy whose first-of-map measurement is range-sharded
 		return "maporder_mixed_sharding_types"
-	case mixed && !noSki && diff == nil && (cmd.Kind == "CreateShardGroup" || cmd.Kind == "CreateMeasurement" || cmd.Kind == "AlterShardKey"):
+	case mixed && !noSki && (cmd.Kind == "CreateShardGroup" || cmd.Kind == "CreateMeasurement" || cmd.Kind == "AlterShardKey"):
 		// a name re-created with another sharding type while its old incarnation is still in the
-		// policy (marked deleted): measurements of both types, the first of the map decides
+		// policy (marked deleted): measurements of both types, the first of the map decides the
+		// answer - or, for CreateShardGroup, how many shards the group gets (catalogues differ)
 		return "maporder_mixed_sharding_types"
 	}
 	return ""
